@@ -38,6 +38,8 @@ type Case struct {
 	// json / form / multipart / text
 	Schema   string `json:"schema,omitempty"`
 	Encoding string `json:"encoding,omitempty"` // raw JSON of the media type's encoding map
+	// CTParams (decode modes): how many parameters the request's Content-Type carries beyond what encoding needs
+	CTParams int `json:"ct_params,omitempty"`
 	// BodyStyle: "" a body of known length | reader (one-shot reader, ContentLength 0) | chunked (ContentLength -1)
 	BodyStyle string `json:"body_style,omitempty"`
 	Defaults  bool   `json:"defaults,omitempty"` // validate with default-setting on (the library's default) instead of skipped
@@ -391,6 +393,16 @@ func checkDecode(c Case) (o h.Outcome) {
 	if declKey != key {
 		o.Class("declared-as:%s:%s", c.DeclKey, c.Mode)
 	}
+	if c.CTParams > 0 && c.DeclKey != "params" {
+		// parameters on the request's header only: they take no part in choosing the entry or the decoder
+		extra := []string{"", "; charset=utf-8", "; charset=utf-8; version=1"}[c.CTParams]
+		if i := strings.Index(ct, ";"); i >= 0 {
+			ct = ct[:i] + extra + ct[i:] // in front of the multipart boundary
+		} else {
+			ct += extra
+		}
+		o.Class("header-parameters:%d:%s", c.CTParams, c.Mode)
+	}
 	doc, err := docWithBody(M{"content": M{declKey: mt}, "required": true})
 	if err != nil {
 		o.Discard = true
@@ -697,6 +709,9 @@ func formValue(t *rapid.T, s M) any {
 
 func gen(t *rapid.T) Case {
 	c := gen2(t)
+	if c.Mode == "json" || c.Mode == "form" || c.Mode == "multipart" || c.Mode == "text" {
+		c.CTParams = rapid.SampledFrom([]int{0, 0, 1, 2}).Draw(t, "ctparams")
+	}
 	if c.Mode != "missing" {
 		c.BodyStyle = rapid.SampledFrom([]string{"", "", "reader", "chunked"}).Draw(t, "bodystyle")
 	}
